@@ -112,7 +112,6 @@ theorem setAside_addBack_cur (cs : List Member) : ∀ (s : St) (fx : List (Membe
         rw [this, hfxnone]
         simp only [Option.getD_some, Option.getD_none]
         unfold curOf; rw [alGetD_def]
-        cases alGet s.cur c <;> rfl
       · rw [curOf_alDel_other _ _ _ he]
         have : alGet (fx ++ [(c, curOf s c)]) x = alGet fx x := alGet_append_other fx c x _ (by simpa using he)
         rw [this]
@@ -128,29 +127,144 @@ theorem addBack_cur (fx : List (Member × List TP)) : ∀ (s : St) (x : Member),
   | nil => intro s x _ _; simp only [List.foldl_nil]; cases alGet s.cur x <;> rfl
   | cons cp rest ih =>
     intro s x hk hnone
+    obtain ⟨ck, cv⟩ := cp
     simp only [List.foldl_cons]
-    have hk' : cp.1 ∉ keysOf rest ∧ (keysOf rest).Nodup := by
-      have : keysOf (cp :: rest) = cp.1 :: keysOf rest := rfl
+    have hk' : ck ∉ keysOf rest ∧ (keysOf rest).Nodup := by
+      have : keysOf ((ck, cv) :: rest) = ck :: keysOf rest := rfl
       rw [this, List.nodup_cons] at hk; exact hk
     rw [ih _ x hk'.2 (by
       intro cp' hcp'
-      show alGet (alSet s.cur cp.1 cp.2) cp'.1 = none
-      have hne : (cp.1 == cp'.1) = false := by
+      show alGet (alSet s.cur ck cv) cp'.1 = none
+      have hne : (ck == cp'.1) = false := by
         apply Bool.eq_false_iff.mpr; intro he
-        have : cp.1 = cp'.1 := by simpa using he
+        have : ck = cp'.1 := by simpa using he
         exact hk'.1 (this ▸ List.mem_map.mpr ⟨cp', hcp', rfl⟩)
       rw [alGet_alSet_other _ _ _ _ hne]
       exact hnone cp' (List.mem_cons_of_mem _ hcp'))]
-    show (match alGet (alSet s.cur cp.1 cp.2) x with | some v => some v | none => alGet rest x) = _
-    by_cases he : (cp.1 == x) = true
-    · have : cp.1 = x := by simpa using he
+    show (match alGet (alSet s.cur ck cv) x with | some v => some v | none => alGet rest x) = _
+    by_cases he : (ck == x) = true
+    · have : ck = x := by simpa using he
       subst this
-      rw [alGet_alSet_same, hnone cp List.mem_cons_self]
+      have hn := hnone (ck, cv) List.mem_cons_self
+      simp only at hn
+      rw [alGet_alSet_same, hn]
       simp [alGet_cons]
-    · have hne : (cp.1 == x) = false := by simpa using he
+    · have hne : (ck == x) = false := by simpa using he
       rw [alGet_alSet_other _ _ _ _ hne]
       cases alGet s.cur x with
       | some v => rfl
-      | none => simp [alGet_cons, hne]
+      | none => simp only [alGet_cons, hne, Bool.false_eq_true, if_false]
+
+end AkVerif.StickyAlg
+
+namespace AkVerif.StickyAlg
+open AkVerif.Assign
+
+theorem setAsideFold_failed (cs : List Member) : ∀ (s : St) (fx : List (Member × List TP)),
+    (cs.foldl (fun (acc : St × List (Member × List TP)) c =>
+        if !canConsumerParticipate acc.1 c then
+          ({ acc.1 with subs := removeFirst acc.1.subs c, cur := alDel acc.1.cur c }, acc.2 ++ [(c, curOf acc.1 c)])
+        else acc) (s, fx)).1.failed = s.failed := by
+  induction cs with
+  | nil => intro s fx; rfl
+  | cons c rest ih =>
+    intro s fx
+    simp only [List.foldl_cons]
+    split
+    · rw [ih]
+    · exact ih s fx
+
+theorem sortBy_ne_nil {α} (lt : α → α → Bool) (l : List α) (h : l ≠ []) : sortBy lt l ≠ [] := by
+  intro hs
+  have := (sortBy_perm lt l).length_eq
+  rw [hs] at this
+  cases l with
+  | nil => exact h rfl
+  | cons a r => simp at this
+
+/-- **a balanced, complete assignment is a fixpoint of `balance`**: if nothing assignable is
+    unassigned and, after the consumers that cannot take part are set aside, the code's own
+    `_is_balanced` test accepts the current assignment, then `balance` returns with every
+    consumer holding exactly the list it held before (same partitions, same order) -/
+theorem balance_fixpoint (fuel : Nat) (s : St)
+    (hc2p : (keysOf s.c2p).Nodup) (hne : s.cur ≠ [])
+    (hun : ∀ p ∈ s.unassigned, (consumersOf s p).isEmpty = true)
+    (hf : s.failed = none)
+    (hb : isBalanced (setAsideFixed (assignUnassigned { s with subs := s.cur.map (·.1) })).1 = true) :
+    ∃ s', balance (fuel + 1) s = some s' ∧ s'.failed = none ∧ ∀ x, curOf s' x = curOf s x := by
+  unfold balance
+  simp only
+  have hsubs : ({ s with subs := s.cur.map (·.1) } : St).subs ≠ [] := by
+    show s.cur.map (·.1) ≠ []
+    intro h; exact hne (List.map_eq_nil_iff.mp h)
+  cases hm : mostSub { s with subs := s.cur.map (·.1) } with
+  | none =>
+    exfalso
+    unfold mostSub sortedSubs at hm
+    have := sortBy_ne_nil (subLt { s with subs := s.cur.map (·.1) }) _ hsubs
+    rw [List.getLast?_eq_none_iff] at hm
+    exact this hm
+  | some most =>
+    simp only
+    -- nothing gets assigned
+    have hsa : assignUnassigned { s with subs := s.cur.map (·.1) }
+        = { ({ s with subs := s.cur.map (·.1) } : St) with
+            sortedParts := s.sortedParts.filter (fun p => !((s.p2c.map (·.1)).filter
+              (fun p => !canPartitionParticipate { s with subs := s.cur.map (·.1) } p)).contains p),
+            unassigned := s.unassigned.filter (fun p => !((s.p2c.map (·.1)).filter
+              (fun p => !canPartitionParticipate { s with subs := s.cur.map (·.1) } p)).contains p) } := by
+      unfold assignUnassigned
+      have := assignFold_skip s.unassigned { s with subs := s.cur.map (·.1) } (by
+        intro p hp; exact hun p hp)
+      simp only at this ⊢
+      rw [this]
+    rw [hsa] at hb ⊢
+    generalize hsaS : ({ ({ s with subs := s.cur.map (·.1) } : St) with
+            sortedParts := s.sortedParts.filter (fun p => !((s.p2c.map (·.1)).filter
+              (fun p => !canPartitionParticipate { s with subs := s.cur.map (·.1) } p)).contains p),
+            unassigned := s.unassigned.filter (fun p => !((s.p2c.map (·.1)).filter
+              (fun p => !canPartitionParticipate { s with subs := s.cur.map (·.1) } p)).contains p) } : St) = sa at hb ⊢
+    have hsacur : sa.cur = s.cur := by rw [← hsaS]
+    have hsac2p : sa.c2p = s.c2p := by rw [← hsaS]
+    have hsaf : sa.failed = s.failed := by rw [← hsaS]
+    -- set aside
+    have hside := fun x => setAside_addBack_cur (sa.c2p.map (·.1)) sa [] x
+      (by intro cp hcp; cases hcp) (by simp [keysOf]) (by rw [hsac2p]; exact hc2p)
+      (by intro c _ hm; simp [keysOf] at hm)
+    have hfl := setAsideFold_failed (sa.c2p.map (·.1)) sa []
+    unfold setAsideFixed at hb ⊢
+    generalize hfold : ((sa.c2p.map (·.1)).foldl (fun (acc : St × List (Member × List TP)) c =>
+        if !canConsumerParticipate acc.1 c then
+          ({ acc.1 with subs := removeFirst acc.1.subs c, cur := alDel acc.1.cur c }, acc.2 ++ [(c, curOf acc.1 c)])
+        else acc) (sa, [])) = fr at hb hside hfl ⊢
+    obtain ⟨s2, fx⟩ := fr
+    simp only at hb hside hfl ⊢
+    rw [reassignBoth_balanced fuel s2 hb]
+    simp only
+    refine ⟨_, rfl, ?_, ?_⟩
+    · unfold finishBalance
+      have hs2f : s2.failed = none := by rw [hfl, hsaf, hf]
+      simp only [hs2f, Option.isSome_none, Bool.false_eq_true, if_false, Bool.and_false, Bool.false_and]
+      have : ∀ (fx : List (Member × List TP)) (t : St),
+          (fx.foldl (fun s cp => { s with cur := alSet s.cur cp.1 cp.2, subs := s.subs ++ [cp.1] }) t).failed = t.failed := by
+        intro fx
+        induction fx with
+        | nil => intro t; rfl
+        | cons a r ih => intro t; simp only [List.foldl_cons]; rw [ih]
+      rw [this]; exact hs2f
+    · intro x
+      unfold finishBalance
+      have hs2f : s2.failed = none := by rw [hfl, hsaf, hf]
+      simp only [hs2f, Option.isSome_none, Bool.false_eq_true, if_false, Bool.and_false, Bool.false_and]
+      have hx := hside x
+      have hab := addBack_cur fx s2 x hx.2.2 hx.2.1
+      unfold curOf
+      rw [alGetD_def, alGetD_def, hab, ← hsacur]
+      have h1 := hx.1
+      simp only [alGet_nil, Option.getD_none] at h1
+      rw [← h1]
+      cases alGet s2.cur x with
+      | some v => rfl
+      | none => rfl
 
 end AkVerif.StickyAlg
